@@ -274,6 +274,7 @@ func discharge(obls []*Obl, outDir string, secs int, par int) {
 			switch {
 			case s.Status == "failed" && o.Status != "failed":
 				o.Status, o.Model, o.Output, o.Reach, o.Goal, o.Solver = "failed", s.Model, s.Output, s.Reach, s.Goal, s.Solver
+				o.Candidate = s.Candidate
 			case s.Status != "discharged" && o.Status == "discharged":
 				o.Status, o.Output, o.Solver = "unknown", s.Output, s.Solver
 			}
@@ -281,6 +282,9 @@ func discharge(obls []*Obl, outDir string, secs int, par int) {
 		o.Trivial = false
 	}
 }
+
+// qfCandidates enables the search for candidate counterexamples on weakened queries.
+var qfCandidates = true
 
 func dischargeFlat(obls []*Obl, outDir string, secs int, par int) {
 	var wg sync.WaitGroup
@@ -298,7 +302,7 @@ func dischargeFlat(obls []*Obl, outDir string, secs int, par int) {
 		}
 		i, o := i, o
 		// scripts are built sequentially (term tables are not thread safe)
-		var script string
+		var script, script2 string
 		var mnames []string
 		if o.ExpectSat {
 			// vacuity check over the quantifier-free assumptions (models of quantified formulas are
@@ -312,12 +316,28 @@ func dischargeFlat(obls []*Obl, outDir string, secs int, par int) {
 			as = append(as, litAxiomsFor(as, o.Reach)...)
 			script = Script(append(as, o.Reach), nil, false, nil)
 		} else {
-			roots := []*Term{o.Reach, o.Goal}
+			goalSk := skolemizeGoal(o.Goal)
+			roots := []*Term{o.Reach, goalSk}
 			as := coneOfInfluence(o.Assume, roots)
-			as = append(as, groundInstances(append(append([]*Term{}, as...), o.Reach), []*Term{o.Goal})...)
+			as = append(as, groundInstances(append(append([]*Term{}, as...), o.Reach), []*Term{goalSk})...)
 			mts, ns := modelTermsOf(o.Inputs)
 			mnames = ns
-			script = Script(append(as, o.Reach), o.Goal, true, mts)
+			goal := expandExists(goalSk, append(append([]*Term{}, as...), o.Reach))
+			script = Script(append(as, o.Reach), goal, true, mts)
+			if !hasQuantifier(goal, map[*Term]bool{}) {
+				var qf []*Term
+				nq := 0
+				for _, a := range as {
+					if hasQuantifier(a, map[*Term]bool{}) {
+						nq++
+						continue
+					}
+					qf = append(qf, a)
+				}
+				if nq > 0 {
+					script2 = Script(append(qf, o.Reach), goal, true, mts)
+				}
+			}
 		}
 		wg.Add(1)
 		sem <- struct{}{}
@@ -359,6 +379,26 @@ func dischargeFlat(obls []*Obl, outDir string, secs int, par int) {
 			default:
 				o.Status = "unknown"
 				o.Output = res.output
+				if script2 != "" && qfCandidates {
+					// no answer: look for a candidate counterexample without the quantified assumptions.
+					// The query is weaker, so a model is only a candidate; it counts only if it replays
+					// on the real code.
+					r2 := race(script2, file+".qf.smt2", 5)
+					if r2.verdict == "sat" {
+						o.Status = "failed"
+						o.Solver = r2.solver + "(qf-candidate)"
+						o.Output = "candidate model from the quantifier-free part of the query (original query: " + firstLines(res.output, 2) + ")\n" + r2.output
+						vals := parseGetValue(r2.output)
+						o.Model = map[string]string{}
+						for k, n := range mnames {
+							if k < len(vals) {
+								o.Model[n] = vals[k]
+							}
+						}
+						o.Candidate = true
+					}
+					os.Remove(file + ".qf.smt2")
+				}
 			}
 		}()
 	}
